@@ -44,5 +44,8 @@ SeqToSet(s) == {s[j] : j \in 1..Len(s)}
 FilterSeq(s, Test(_)) ==
     LET f[j \in 0..Len(s)] == IF j = 0 THEN <<>> ELSE IF Test(s[j]) THEN Append(f[j-1], s[j]) ELSE f[j-1]
     IN f[Len(s)]
+FilterSeqIdx(s, TestIdx(_)) ==
+    LET f[j \in 0..Len(s)] == IF j = 0 THEN <<>> ELSE IF TestIdx(j) THEN Append(f[j-1], s[j]) ELSE f[j-1]
+    IN f[Len(s)]
 NonDecreasing(s) == \A j \in 1..(Len(s)-1) : s[j] <= s[j+1]
 =============================================================================
